@@ -560,13 +560,20 @@ fn work(args: &Args, entries: &[Entry], w: usize, nw: usize) -> Value {
     let thorough = args.tier == "thorough";
     let all = items(&r, entries);
     let mut merged = Value::Null;
+    // Wall-clock backstop per forked item (the deterministic hang detector is
+    // the seam-event budget; this only catches loops that touch no seam).
+    // Items take seconds; after the first item that had to be killed, the
+    // backstop drops so that a change that makes many parses hang is still
+    // reported within minutes.
+    let backstop = std::cell::Cell::new(if thorough { 1_800_000 } else { 900_000 });
+    let after_first_kill = if thorough { 300_000 } else { 90_000 };
     let progress = r.scratch.join("progress");
     for (idx, item) in all.iter().enumerate() {
         if idx % nw != w {
             continue;
         }
         let _ = std::fs::remove_file(&progress);
-        let res = fork_collect(if thorough { 1_800_000 } else { 900_000 }, |wfd| {
+        let res = fork_collect(backstop.get(), |wfd| {
             let v = run_item(&r, entries, item, thorough, args.seed, idx as u64, &progress);
             let s = v.to_string();
             let b = s.as_bytes();
@@ -588,6 +595,9 @@ fn work(args: &Args, entries: &[Entry], w: usize, nw: usize) -> Value {
                 Err(_) => report::merge(&mut merged, &json!({"harness_errors": [format!("item {idx}: unparsable child result")]})),
             },
             Err(end) => {
+                if matches!(end, ChildEnd::Timeout) {
+                    backstop.set(after_first_kill);
+                }
                 // the child died or hung: name the sub-case it was running
                 let marked: Option<Case> = std::fs::read_to_string(&progress).ok().and_then(|s| serde_json::from_str::<Value>(&s).ok()).and_then(|v| Case::from_json(&v));
                 let k: u64 = 0;
@@ -625,7 +635,7 @@ fn work(args: &Args, entries: &[Entry], w: usize, nw: usize) -> Value {
         if idx % nw != w {
             continue;
         }
-        let res = fork_collect(900_000, |wfd| {
+        let res = fork_collect(backstop.get().min(900_000), |wfd| {
             let v = run_seq_item(&r, entries, pi, thorough, args.seed, idx as u64);
             let s = v.to_string();
             let b = s.as_bytes();
@@ -648,6 +658,9 @@ fn work(args: &Args, entries: &[Entry], w: usize, nw: usize) -> Value {
                 }
             }
             Err(end) => {
+                if matches!(end, ChildEnd::Timeout) {
+                    backstop.set(after_first_kill);
+                }
                 let p = &*r.registry[pi];
                 let (class, what) = match end {
                     ChildEnd::Timeout => ("hang", "a parse in a reuse sequence did not return".to_string()),
